@@ -14,10 +14,10 @@ CHECKS = {
                 note='any balanced contiguous arrangement is accepted; sufficiency of bufferSize is checked with arrays of exactly the advertised size through the machinery of C01 (handlers) and C03 (swappers); layouts handed out by a manager are re-checked after its construction.', ref='DESIGN.md section 3 C02'),
     'C03': dict(cat='model_checking', tech='explicit-state exploration of the real LayoutSwapper in a simulated MPI world: all length-3 layout sequences per configuration, dead buffers poisoned, global-array reference model',
                 text='State = (configuration, current layout / manager); every transition (transpose to any layout, buffer or not) from every state is executed on the real object on all ranks, reached through every predecessor (all triples a->b->c), and compared exactly with a global array, for every accepted grouping / shape / 2-D grid of the alphabet, float and complex (gather through MPI.DOUBLE).',
-                note='trusted: simmpi Allgather/Alltoall byte-count semantics; dead data represented by poison values; groupings the constructor refuses are counted as rejected.', ref='DESIGN.md section 3 C03'),
+                note='trusted: simmpi Allgather/Alltoall byte-count semantics; dead data represented by poison values; groupings the constructor refuses are counted as rejected; for two groupings a swapper giving the same layout names other orderings is used and checked first (state keyed by names must not leak between managers).', ref='DESIGN.md section 3 C03'),
     'C04': dict(cat='model_checking', tech='breadth-first explicit-state search to closure over the real Grid object (alphabet setLayout/write/save/restore/free) on all ranks of a simulated MPI world, one-array reference model, NaN-poisoned dead regions',
                 text='For each configuration the reachable state space of the Grid (layout, save flag, saved content, buffer-index permutation, live content, swapper manager) is searched to closure with the real methods as transition function; every transition is checked against a one-array model including refusal of illegal save/restore/free; closure covers operation sequences of any length.',
-                note='trusted: simmpi; the canonical-state abstraction (dead buffer regions are arbitrary, represented by NaN) - argument in DESIGN.md; uses Grid internals only for poisoning and the state key.', ref='DESIGN.md section 3 C04'),
+                note='trusted: simmpi; the canonical-state abstraction (dead buffer regions are arbitrary, represented by NaN) - argument in DESIGN.md; uses Grid internals only for poisoning and the state key; plus two-manager cases (same names, other orderings, lockstep through every ordered pair of layouts).', ref='DESIGN.md section 3 C04'),
     'C07': dict(cat='exploration', tech='bounded-exhaustive enumeration of a structural lattice of spline spaces x evaluation-point classes x unit coefficient vectors on every entry point, against exact-rational Cox-de Boor',
                 text='All spaces of the lattice (degree, cells, boundary, breakpoint widths, fast path, scale), all x classes (breakpoints, +-1 ulp, interior, end points), all unit coefficient vectors (linearity then decides every coefficient vector) on every 1-D/2-D entry point and derivative flag are compared with an exact rational evaluation; partition of unity, non-negativity, periodic end-point identities and fast-path/general-path agreement included.',
                 note='trusted: pgv.refspline (exact Fractions, independent of pygyro/scipy); linearity in the coefficients (checked by superposition in thorough); x inside a cell covered through >= d+3 points per cell (polynomial identity).', ref='DESIGN.md section 3 C07'),
